@@ -29,8 +29,14 @@ ASSUMPTIONS = [
 ]
 ADDRS = [(0x1000, 0), (0x2000, 0), (0x2001, 5), (0xFFFF, 0xFF)] + [(1 << b, 0) for b in range(16)] + \
         [(0x2002, 1 << b) for b in range(8)]
-OD_WIDTHS = {"u8": 1, "u16": 2, "u32": 4, "u64": 8}
+OD_WIDTHS = {"u8": 1, "u16": 2, "u32": 4, "u64": 8, "bool": 1, "i8": 1, "i16": 2, "i24": 3, "u24": 3, "i32": 4, "i40": 5, "u48": 6,
+             "i56": 7, "i64": 8, "r32": 4, "r64": 8}
+OD_TYPES = {"u8": "UNSIGNED8", "u16": "UNSIGNED16", "u32": "UNSIGNED32", "u64": "UNSIGNED64", "bool": "BOOLEAN", "i8": "INTEGER8",
+            "i16": "INTEGER16", "i24": "INTEGER24", "u24": "UNSIGNED24", "i32": "INTEGER32", "i40": "INTEGER40", "u48": "UNSIGNED48",
+            "i56": "INTEGER56", "i64": "INTEGER64", "r32": "REAL32", "r64": "REAL64", "str": "VISIBLE_STRING", "dom": "DOMAIN"}
 OD_INDEX = {"u8": 0x3001, "u16": 0x3002, "u32": 0x3004, "u64": 0x3008, "str": 0x3009, "dom": 0x300A}
+for _i, _k in enumerate(k for k in OD_TYPES if k not in OD_INDEX):
+    OD_INDEX[_k] = 0x3010 + _i
 
 
 def bounds(tier):
@@ -42,10 +48,9 @@ def bounds(tier):
 def _od():
     from canopen.objectdictionary import ODVariable, ObjectDictionary, datatypes as dt
     od = ObjectDictionary()
-    for name, t in (("u8", dt.UNSIGNED8), ("u16", dt.UNSIGNED16), ("u32", dt.UNSIGNED32), ("u64", dt.UNSIGNED64),
-                    ("str", dt.VISIBLE_STRING), ("dom", dt.DOMAIN)):
+    for name, tname in OD_TYPES.items():
         v = ODVariable("obj_" + name, OD_INDEX[name])
-        v.data_type = t
+        v.data_type = getattr(dt, tname)
         od.add_object(v)
     return od
 
@@ -73,7 +78,7 @@ def cases(tier, seed):
                 continue
             plans = (None,) if style.startswith("exp") else (None, [3], [1, 6, 2, 7])
             for plan in plans:
-                for od in ("absent", "u8", "u16", "u32", "u64", "str"):
+                for od in ["absent", "str"] + list(OD_WIDTHS):
                     if od in OD_WIDTHS and n < OD_WIDTHS[od]:
                         continue
                     for mode in ("upload", "raw", "b7:all", "b7:1", "b7:3", "b7:7", "b7:8", "b1024:all", "b1024:3", "text"):
